@@ -7,7 +7,10 @@ package session
 // last wills crossing brokers).
 
 import (
+	"bytes"
+	"encoding/json"
 	"fmt"
+	"math/rand"
 	"sort"
 	"strings"
 	"sync"
@@ -17,7 +20,9 @@ import (
 	"github.com/emitter-io/emitter/internal/message"
 	"github.com/emitter-io/emitter/internal/security/hash"
 	"github.com/emitter-io/emitter/verif/bk"
+	"github.com/emitter-io/emitter/verif/core"
 	"github.com/emitter-io/emitter/verif/meshsender"
+	"github.com/emitter-io/emitter/verif/tlc"
 	"github.com/weaveworks/mesh"
 )
 
@@ -259,4 +264,76 @@ func describe(nb int, surveyed bool) string {
 		s += ", surveys answered"
 	}
 	return strings.TrimSpace(s)
+}
+
+// ClusterStage replays TLC-simulated client sessions on nb brokers and validates them against Session.tla with the
+// matching Home map: after every request gossip and peer frames run to quiescence, and then every delivery, presence
+// notification, last will and route of the real cluster must be what the one-broker specification prescribes for the
+// cluster as a whole.  Returns the number of traces validated.
+func ClusterStage(c *core.Ctx, what string, nb int, surveyed bool, fams []string, num, depth int) int {
+	rng := rand.New(rand.NewSource(c.Seed + 77))
+	type job struct {
+		mode string
+		walk []json.RawMessage
+		i    int
+		fam  string
+	}
+	var jobs []job
+	modes := []string{"emitter", "mqtt"}
+	for _, mode := range modes {
+		for _, fam := range fams {
+			// design level: the invariants of the session model do not depend on where the clients connect
+			c.ModelCheck("MC_Session", strings.Replace(mcCfg(mode, fam, `{"c1","c2","c3"}`, 3, 2, "none", true), "NB = 1", fmt.Sprintf("NB = %d", nb), 1), tlc.Opts{})
+			for i, w := range SimulateN(c, mode, fam, num, depth, nb, rng) {
+				jobs = append(jobs, job{mode, w, i, fam})
+			}
+		}
+	}
+	traces := map[string][]*core.Trace{}
+	var mu sync.Mutex
+	var wg sync.WaitGroup
+	sem := make(chan struct{}, 8)
+	var machinery []string
+	for ji, j := range jobs {
+		wg.Add(1)
+		sem <- struct{}{}
+		go func(ji int, j job) {
+			defer wg.Done()
+			defer func() { <-sem }()
+			lic := 1 + (ji+int(c.Seed))%3
+			t, err := ReplayN(nb, surveyed, j.mode, lic, "inmemory", j.walk, fmt.Sprintf("cluster%d-%s-%s-%d-lic%d", nb, j.fam, j.mode, j.i, lic), rand.New(rand.NewSource(c.Seed+int64(ji))))
+			mu.Lock()
+			defer mu.Unlock()
+			if err != nil {
+				machinery = append(machinery, err.Error())
+				return
+			}
+			traces[j.mode] = append(traces[j.mode], t)
+		}(ji, j)
+	}
+	wg.Wait()
+	if len(machinery) > 0 {
+		core.Fatalf("%d cluster behaviours could not be replayed, first: %s", len(machinery), machinery[0])
+	}
+	n := 0
+	routed := int64(0)
+	for _, mode := range modes {
+		ts := traces[mode]
+		sort.Slice(ts, func(i, j int) bool { return ts[i].Label < ts[j].Label })
+		for _, t := range ts {
+			c.Add("evaluations", int64(len(t.Events)-1))
+			if bytes.Contains(bytes.Join(t.Events, nil), []byte(`["b2",[`)) || bytes.Contains(bytes.Join(t.Events, nil), []byte(`["b1",[`)) {
+				routed++
+			}
+		}
+		if len(ts) > 0 {
+			t := ts[rng.Intn(len(ts))]
+			c.Sample(map[string]any{"label": t.Label, "events_head": headEvents(t, 5)})
+		}
+		rej := c.ValidateTraces(ts, core.ValidateOpts{Module: "Session_Trace", Cfg: traceCfgN(mode, nb, surveyed), ChunkSize: 2500})
+		c.ReportRejections(rej, what+" ("+describe(nb, surveyed)+", "+mode+" matcher)")
+		n += len(ts)
+	}
+	c.Add("cluster_sessions_with_routes", routed)
+	return n
 }
